@@ -93,6 +93,7 @@ type Cluster struct {
 	actors map[string]*Actor
 
 	VNow int // virtual now, in units
+	startUnix int64
 
 	podIDs  map[string]int // ns/name -> id
 	rsIDs   map[string]int
@@ -136,6 +137,7 @@ func NewCluster(opts Options) *Cluster {
 		Scheme: s, tracker: tracker, base: base, opts: opts,
 		actors: map[string]*Actor{}, podIDs: map[string]int{}, rsIDs: map[string]int{}, foreign: map[string]bool{},
 		Templates: map[string]*corev1.PodTemplateSpec{}, tmplHash: map[string]string{}, Faults: map[int]FaultKind{},
+		startUnix: time.Now().Unix() - 1,
 	}
 	for _, n := range []string{"eds", "ers", "setting", "podtemplate", "cmd"} {
 		c.newActor(n)
